@@ -91,7 +91,7 @@ pub fn check_sinks(prop: &str, sc: &Scenario, rr: &RunResult, reference: &RefRes
     for (sid, (kind, want)) in reference.sinks.iter().enumerate() {
         let got = sink_got(&rr.rec, sid as u32, *kind, hosts);
         match kind {
-            SinkKind::CollectVecAll => {
+            SinkKind::CollectVecAll | SinkKind::CollectAll => {
                 for (h, v) in &got {
                     match (v, want) {
                         (SinkValue::Vec(g), RefSink::Multiset(w)) => {
@@ -104,7 +104,7 @@ pub fn check_sinks(prop: &str, sc: &Scenario, rr: &RunResult, reference: &RefRes
                     }
                 }
             }
-            SinkKind::ForEach => {
+            SinkKind::ForEach | SinkKind::CollectChannelParallel => {
                 let mut all = vec![];
                 for (_, v) in &got {
                     if let SinkValue::Vec(g) = v {
@@ -512,7 +512,7 @@ pub fn c04(sc: &Scenario, rr: &RunResult) -> Vec<Violation> {
         for h in 0..hosts {
             let v = rr.rec.sinks.get(&(sid, h));
             let owns = match kind {
-                SinkKind::CollectVecAll | SinkKind::ForEach => true,
+                SinkKind::CollectVecAll | SinkKind::ForEach | SinkKind::CollectAll | SinkKind::CollectChannelParallel => true,
                 _ => h == 0,
             };
             let has = !matches!(v, Some(SinkValue::None) | None);
